@@ -62,6 +62,12 @@ def guards_of(mod: Mod, node: ast.AST, stop: ast.AST) -> List[Tuple[ast.AST, boo
         elif isinstance(a, ast.While):
             if any(child is s for s in a.body):
                 out.append((a.test, True))
+        elif isinstance(a, ast.IfExp):
+            # the arms of a conditional expression are guarded like the arms of an if statement
+            if child is a.body:
+                out.append((a.test, True))
+            elif child is a.orelse:
+                out.append((a.test, False))
         child = a
     return out[::-1]
 
@@ -612,7 +618,7 @@ def int_intervals(ctx: Ctx) -> None:
                     ctx.R.ok("INT", f"{cm.name}.{fnname}: {norm(n)}")
                 else:
                     ctx.R.fail("INT", cm, n, "range() bound does not match the interval convention of _parse_exception_table")
-    if consumers < 4:
+    if consumers < 2:
         raise AnalysisError(f"INT: only {consumers} consumers found (4 confirmed by hand)")
 
 
@@ -666,6 +672,8 @@ def exi1_producers(ctx: Ctx) -> None:
                         ctx.R.fail("EXI-1", m, bad, "the result list is extended or reordered after the exiting context was appended: the exiting context would not be last")
                     else:
                         ctx.R.ok("EXI-1", f"_lowlevel.{q}: {norm(st)[:80]}", "appended last on every path")
+                elif m.in_dead_helper(call):
+                    ctx.R.ok("EXI-1", f"{m.name}.{q}: helper inlined at every call site", "judged in its callers")
                 else:
                     ctx.R.fail("EXI-1", m, call, "a Context with is_exiting set is constructed outside the two producers: consumers rely on 'the exiting context is ret[-1]'")
     # is_exiting may only be set by construction: an in-place store marks an object that other code may share
@@ -896,8 +904,32 @@ def join1(ctx: Ctx) -> None:
                 ctx.R.ok("JOIN-1", norm(n)[:90])
             else:
                 ctx.R.fail("JOIN-1", mod, n, "the exiting entry must be looked up by exiting.cleanup_offset")
-            gs = [norm(g) for g, pol in guards_of(mod, n, fn) if pol]
-            if "exiting is not None" not in gs:
+            gl = guards_of(mod, n, fn)
+            # ExitingContext is a plain record (no __bool__ / __len__): its truth value is "is not None"
+            ec = [c_ for c_ in mod.tree.body if isinstance(c_, ast.ClassDef) and c_.name == "ExitingContext"]
+            plain = len(ec) == 1 and not any(isinstance(m_, ast.FunctionDef) and m_.name in ("__bool__", "__len__") for m_ in ec[0].body) \
+                and not any("Tuple" in norm(b_) or "tuple" in norm(b_) for b_ in ec[0].bases)
+
+            class _T(ast.NodeTransformer):
+                def visit_Name(self, x: ast.Name):
+                    return ast.Compare(left=ast.Name(id="exiting", ctx=ast.Load()), ops=[ast.IsNot()], comparators=[ast.Constant(value=None)]) if x.id == "exiting" and plain else x
+
+                def visit_Compare(self, x: ast.Compare):
+                    return x
+            import copy as _copy
+            parts_ = [_T().visit(_copy.deepcopy(g)) if pol else ast.UnaryOp(op=ast.Not(), operand=_T().visit(_copy.deepcopy(g))) for g, pol in gl]
+            from ..util import equivalent as _equiv
+            okg = None
+            if parts_:
+                try:
+                    okg = _equiv(parts_[0] if len(parts_) == 1 else ast.BoolOp(op=ast.And(), values=parts_), lambda e_: not e_["exiting is None"], ["exiting is None"])[0]
+                except AnalysisError:
+                    okg = None
+            if okg is None and parts_ and not any("exiting" in norm(g) for g, _ in gl) and all(isinstance(g, ast.Constant) for g, _ in gl):
+                ctx.R.fail("JOIN-1", mod, n, "the exiting entry must be appended iff `exiting is not None`; it is appended unconditionally")
+            elif okg is None and parts_:
+                ctx.R.undecided("JOIN-1", f"guard of the exiting entry not understood: {[norm(g)[:40] for g, _ in gl]}")
+            elif not okg:
                 ctx.R.fail("JOIN-1", mod, n, "the exiting entry must be appended iff `exiting is not None`")
     if not found:
         raise AnalysisError("JOIN-1: exiting append vanished")
@@ -1091,6 +1123,30 @@ def _abstract(n: ast.AST) -> str:
     return norm(ast.fix_missing_locations(_Abs().visit(copy.deepcopy(n))))
 
 
+def _unalias(m: Mod, cmp_: ast.Compare) -> ast.AST:
+    """`x = code[offs]` ... `x == op[...]`: a local bound exactly once to a subscript of the bytecode is replaced by that subscript
+    (reading the opcode into a local first does not change which test is made)"""
+    import copy
+    fn = m.enclosing_def(cmp_)
+    if fn is None:
+        return cmp_
+    names = {x.id for x in ast.walk(cmp_) if isinstance(x, ast.Name)}
+    sub: Dict[str, ast.AST] = {}
+    for nm in names:
+        asg = [a for a in walk_scope(fn) if isinstance(a, (ast.Assign, ast.AnnAssign, ast.AugAssign, ast.For, ast.NamedExpr)) and any(isinstance(t, ast.Name) and t.id == nm and isinstance(t.ctx, ast.Store)
+                                                                                                                              for t in ast.walk(a.target if not isinstance(a, ast.Assign) else ast.Tuple(elts=a.targets, ctx=ast.Store())))]
+        if len(asg) == 1 and isinstance(asg[0], ast.Assign) and len(asg[0].targets) == 1 and isinstance(asg[0].targets[0], ast.Name) and isinstance(asg[0].value, ast.Subscript) \
+                and isinstance(asg[0].value.value, ast.Name) and not isinstance(asg[0].value.slice, ast.Slice) and nm not in {a.arg for a in fn.args.args + fn.args.kwonlyargs}:
+            sub[nm] = asg[0].value
+    if not sub:
+        return cmp_
+
+    class S(ast.NodeTransformer):
+        def visit_Name(self, x: ast.Name):
+            return copy.deepcopy(sub[x.id]) if x.id in sub and isinstance(x.ctx, ast.Load) else x
+    return S().visit(copy.deepcopy(cmp_))
+
+
 def opcode_test_table(ctx: Ctx) -> Dict[str, List[str]]:
     """every comparison against an opcode in the low-level modules -> versions under which it is reachable"""
     table: Dict[str, Set[str]] = {}
@@ -1108,7 +1164,7 @@ def opcode_test_table(ctx: Ctx) -> Dict[str, List[str]]:
                 if has:
                     # keyed by module and the comparison with every variable name abstracted away (moving code into a
                     # helper or renaming `offs` keeps the key; which offset relative to the position is compared stays visible)
-                    key = f"{mn}: {_abstract(n)}"
+                    key = f"{mn}: {_abstract(_unalias(m, n))}"
                     table.setdefault(key, set()).update(reach.live.get(id(n), frozenset()))
     return {k: sorted(v) for k, v in table.items()}
 
@@ -1163,6 +1219,20 @@ def opc5_version_coverage(ctx: Ctx) -> None:
                 ctx.R.ok("OPC-5", key[:110], f"rewritten; every opcode it names is still tested under {sorted(want)}")
             else:
                 still.append(key)
+        gone = []
+        for key in list(still):
+            mn = key.split(":")[0]
+            names = _re.findall(r"'([A-Z][A-Z_0-9]+)'", key)
+            m = ctx.P.mod(mn)
+            mentioned = {x.value for x in ast.walk(m.tree) if isinstance(x, ast.Constant) and isinstance(x.value, str)}
+            lost_names = [a for a in names if a not in mentioned]
+            if lost_names:
+                # positive evidence: the opcode is not named anywhere in the module any more, so no rewritten form of the test can exist
+                still.remove(key)
+                gone.append((key, lost_names))
+                ctx.R.fail("OPC-5", m, None, f"the opcode test `{key.split(': ', 1)[1][:80]}` (reachable under CPython {ref[key]} on the reference tree) is gone and {lost_names} "
+                           f"is no longer named anywhere in stackscope.{mn}: the bytecode shape it distinguished is now treated like every other instruction on {ref[key]}",
+                           construct=f"{key.split(': ', 1)[1][:100]} removed", qualname=f"{mn}")
         if still:
             raise AnalysisError(f"OPC-5: {len(still)} reference opcode test(s) are no longer present in any recognisable form, e.g. `{still[0][:100]}`: cannot decide version coverage for them")
 
@@ -1415,6 +1485,18 @@ def opc6_exit_templates(ctx: Ctx) -> None:
         k = len(names)
         sl = win[0].slice
         lo, hi, step = norm(sl.lower), norm(sl.upper), norm(sl.step)
+        import re as _re
+        mlo = _re.fullmatch(r"offs - (\d+)", lo)
+        mhi = _re.fullmatch(r"offs \+ (\d+)", hi)
+        a_ = int(mlo.group(1)) if mlo else None              # the window starts a_ bytes before offs
+        b_ = int(mhi.group(1)) if mhi else (0 if hi == "offs" else None)   # and ends b_ bytes after it (exclusive)
+        if a_ is None or b_ is None or step != "2" or a_ % 2 or b_ % 2 or (a_ + b_) // 2 != k:
+            for v in sorted(live(cmp_)):
+                n_checked += 1
+                ctx.R.fail("OPC-6", mod, cmp_, f"CPython {v}: a window of {k} code units around offs is code[offs - 2i:offs + 2j:2] with i + j == {k}; the matcher slices code[{lo}:{hi}:{step}]",
+                           construct=f"{v}: window bounds [{lo}:{hi}:{step}]")
+            continue
+        back = a_ + 2          # from offs to the instruction before the window
         for v in sorted(live(cmp_)):
             n_checked += 1
             t = [a for a, b in T[v]["fall/sync"]]
@@ -1423,24 +1505,23 @@ def opc6_exit_templates(ctx: Ctx) -> None:
                 ctx.R.undecided("OPC-6", f"{v}: no call in the exit template")
                 continue
             c = calls[0]
-            want = t[c - k + 1:c + 1]
+            want = t[c - a_ // 2:c + b_ // 2]
             if names != want:
-                ctx.R.fail("OPC-6", mod, cmp_, f"CPython {v}: the compiler ends the normal-path __exit__ call with {t[max(0, c - k + 1):c + 1]}, the matcher compares the window with {names}",
+                ctx.R.fail("OPC-6", mod, cmp_, f"CPython {v}: the compiler ends the normal-path __exit__ call with {t[max(0, c - a_ // 2):c + 1]}, the matcher compares code[{lo}:{hi}:2] (relative to the call at offs) with {names}",
                            construct=f"{v}: window opcodes {names}")
-            elif (lo, hi, step) != (f"offs - {2 * (k - 1)}", "offs + 2", "2"):
-                ctx.R.fail("OPC-6", mod, cmp_, f"CPython {v}: a window of {k} code units ending at offs is code[offs - {2 * (k - 1)}:offs + 2:2]; the matcher slices code[{lo}:{hi}:{step}]",
-                           construct=f"{v}: window bounds [{lo}:{hi}:{step}]")
+            elif b_ == 0 and not [c2 for c2 in ast.walk(fn) if isinstance(c2, ast.Compare) and v in live(c2) and norm(_unalias(mod, c2).left) == "code[offs]" and t[c] in opnames_in(c2)]:
+                ctx.R.undecided("OPC-6", f"{v}: the window stops before the call and no separate test of code[offs] against {t[c]} was found")
             else:
-                ctx.R.ok("OPC-6", f"{v}: window {names} == template suffix, bounds [{lo}:{hi}:{step}]")
+                ctx.R.ok("OPC-6", f"{v}: window {names} == template at [{-a_ // 2}, {b_ // 2}) around the call, bounds [{lo}:{hi}:{step}]")
             # guard `offs < 2k` in the same condition and the step back over the window afterwards
             st = _stmt(mod, cmp_)
             if isinstance(st, ast.If):
                 for g in ast.walk(st.test):
                     if isinstance(g, ast.Compare) and norm(g.left) == "offs" and isinstance(g.ops[0], ast.Lt) and isinstance(g.comparators[0], ast.Constant):
-                        if g.comparators[0].value == 2 * k:
-                            ctx.R.ok("OPC-6", f"{v}: bounds guard offs < {2 * k}")
+                        if g.comparators[0].value == back:
+                            ctx.R.ok("OPC-6", f"{v}: bounds guard offs < {back}")
                         else:
-                            ctx.R.fail("OPC-6", mod, g, f"CPython {v}: the window needs offs >= {2 * k} (it starts at offs - {2 * (k - 1)} and the POP_BLOCK before it is at offs - {2 * k}); the guard is `{norm(g)}`",
+                            ctx.R.fail("OPC-6", mod, g, f"CPython {v}: the window needs offs >= {back} (it starts at offs - {a_} and the POP_BLOCK before it is at offs - {back}); the guard is `{norm(g)}`",
                                        construct=f"{v}: window guard {norm(g)}")
                 blk = None
                 p = mod.parent_of(st)
@@ -1453,10 +1534,10 @@ def opc6_exit_templates(ctx: Ctx) -> None:
                     steps = [x for x in after if isinstance(x, ast.AugAssign) and norm(x.target) == "offs"]
                     if steps:
                         s0 = steps[0]
-                        if isinstance(s0.op, ast.Sub) and isinstance(s0.value, ast.Constant) and s0.value.value == 2 * k:
-                            ctx.R.ok("OPC-6", f"{v}: steps back {2 * k} bytes from the call to the instruction before the window ({t[c - k]})")
+                        if isinstance(s0.op, ast.Sub) and isinstance(s0.value, ast.Constant) and s0.value.value == back:
+                            ctx.R.ok("OPC-6", f"{v}: steps back {back} bytes from the call to the instruction before the window ({t[c - back // 2]})")
                         else:
-                            ctx.R.fail("OPC-6", mod, s0, f"CPython {v}: from the CALL the instruction before the {k}-unit window is {2 * k} bytes back ({t[c - k] if c - k >= 0 else '?'}); the matcher does `{norm(s0)}`",
+                            ctx.R.fail("OPC-6", mod, s0, f"CPython {v}: from the CALL the instruction before the window is {back} bytes back ({t[c - back // 2] if c - back // 2 >= 0 else '?'}); the matcher does `{norm(s0)}`",
                                        construct=f"{v}: step over window {norm(s0)}")
                     # what can sit between POP_BLOCK and the window on jump-out paths must be skipped
                     tested = set()
@@ -1482,9 +1563,9 @@ def opc6_exit_templates(ctx: Ctx) -> None:
                             continue
                         tt = [a for a, b in seq]
                         cs = [i for i, a in enumerate(tt) if a.startswith("CALL")]
-                        if not cs or cs[0] - k < 0:
+                        if not cs or cs[0] - back // 2 < 0:
                             continue
-                        before = tt[cs[0] - k]
+                        before = tt[cs[0] - back // 2]
                         if before == "POP_BLOCK":
                             # the landing instruction itself: the function must test for it under v
                             pb = [c2 for c2 in ast.walk(fn) if isinstance(c2, ast.Compare) and norm(c2.left) == "code[offs]" and "POP_BLOCK" in opnames_in(c2) and v in live(c2)]
